@@ -85,6 +85,7 @@ class Harness:
         extra_actions: Optional[Dict[str, Any]] = None,
         extra_guards: Optional[Dict[str, Any]] = None,
         extra_markers: Optional[List[str]] = None,
+        missing_actions: Optional[List[str]] = None,
         with_plugin: bool = True,
         with_subscriber: bool = False,
         fresh_machine: bool = False,
@@ -100,7 +101,7 @@ class Harness:
                 extra_actions[name] = self.rec.marker(name)
         self._kw = dict(
             guards=guards, services=services, delays=delays, extra_actions=extra_actions,
-            extra_guards=extra_guards,
+            extra_guards=extra_guards, missing_actions=missing_actions,
         )
         self.with_plugin = with_plugin
         self.with_subscriber = with_subscriber
